@@ -340,7 +340,7 @@ template <typename S, int K, bool BIG> struct Shapes {
     r.call("length_error", [&] { S s(S::max_space_dimension() + 1, EMPTY); });
   }
 
-  static const char* keep(const std::string& s) { return strdup(s.c_str()); }
+  static const char* keep(const std::string& s) { static std::vector<std::string*> pool; pool.push_back(new std::string(s)); return pool.back()->c_str(); }
   static void reg(const char* dom) {
     name() = dom;
     std::string d(dom);
